@@ -111,6 +111,19 @@ def key (n : Nat) (s : State) : String :=
 def gkey (n : Nat) (g : GState) : String :=
   key n g.core ++ "/" ++ String.ofList ((List.range n).map fun l => if g.asleep l then 'z' else '-') ++ "/" ++ labels g.gateQ
 
+def wnormalize (n : Nat) (w : WState) : WState :=
+  let m := w.wsleep .main
+  let t := mkTab n (fun l => w.wsleep (.tgt l)) false
+  { g := gnormalize n w.g, wsleep := fun x => match x with | .main => m | .tgt l => t.get l, wq := w.wq }
+
+def tidKey : Tid → String
+  | .main => "m"
+  | .tgt l => toString l
+
+def wkey (n : Nat) (w : WState) : String :=
+  gkey n w.g ++ "/" ++ (if w.wsleep .main then "Z" else "-") ++
+    String.ofList ((List.range n).map fun l => if w.wsleep (.tgt l) then 'z' else '-') ++ "/" ++ ".".intercalate (w.wq.map tidKey)
+
 def summary (g : G) (s : State) : String :=
   let ls := List.range g.n
   let res := match s.main with | .done e => errName e | .waitAll e => errName e | _ => "?"
@@ -142,38 +155,46 @@ def kindsOf (res : Results) (k : Nat) : List String :=
   | some hs => hs.map errName
 
 /-- check one recorded event against the model and return the successor state (`blocked` events leave it unchanged) -/
-def applyEvent (g : G) (gs : GState) (ev : String) : Except String GState := do
+def applyEvent (g : G) (w : WState) (ev : String) : Except String WState := do
   let P := g.P
+  let gs := w.g
   let s := gs.core
   match ev.splitOn "/" with
   | [th, rest] =>
     let f := rest.splitOn ":"
-    let advance (t : Tid) : Except String GState :=
-      match gstep P gs t with
+    let advance (t : Tid) : Except String WState :=
+      match wstep P w t with
       | some s' => .ok s'
       | none => .error "the model's thread is not enabled"
-    let blocked (t : Tid) : Except String GState :=
-      match gstep P gs t with
+    let blocked (t : Tid) : Except String WState :=
+      match wstep P w t with
       | some _ => .error "implementation blocked where the model is enabled"
-      | none => .ok gs
+      | none => .ok w
+    -- goes to sleep in `t.c.Wait()`: a step of the refined model, enabled iff awake and the target is running
+    let sleepOn (t : Tid) (d : Label) : Except String WState :=
+      if w.wsleep t then .error "sleeps again without having been woken"
+      else if s.status d != .running then .error s!"goes to sleep although {d} is not running"
+      else advance t
+    let awake (t : Tid) (k : Except String WState) : Except String WState :=
+      if w.wsleep t then .error "continues, but in the model it sleeps in cond.Wait and nobody has broadcast" else k
     if th == "m" then
       match s.main, f with
       | .start, ["start", sp] =>
         if (sp == "spawn") != (s.status P.root == .idle) then .error "spawn/skip differs" else advance .main
-      | .wait, ["block", "mwait"] => blocked .main
+      | .wait, ["block", "mwait"] => sleepOn .main P.root
       | .wait, ["wait", e] =>
         if parseErr? e != some (s.err P.root) then .error s!"Run's wait saw {e}, model {errName (s.err P.root)}"
-        else advance .main
+        else awake .main (advance .main)
       | .waitAll _, ["block", "mwaitall"] => blocked .main
       | .waitAll _, ["waitall"] => advance .main
-      | .done _, ["return"] => .ok gs
+      | .done _, ["return"] => .ok w
       | _, _ => .error s!"main thread is at {mainKey s.main}"
     else
       let some l := parseNat? th | .error "bad thread"
       if l ≥ g.n then .error "label out of range" else
       let some p := s.pc l | .error "no such thread in the model"
       let t := Tid.tgt l
-      let bad : Except String GState := .error s!"model thread {l} is at {pcKey p}"
+      let bad : Except String WState := .error s!"model thread {l} is at {pcKey p}"
       match p, f with
       | .enter1, ["enter", c] | .enter2 _, ["enter", c] => do
         -- the thread takes a slot: in the model it must be awake (never asleep, or signalled) and a slot must be free
@@ -181,7 +202,7 @@ def applyEvent (g : G) (gs : GState) (ev : String) : Except String GState := do
         else if s.capacity == 0 then .error "takes a slot, model capacity 0"
         else
           let s' ← advance t
-          if parseNat? c != some s'.core.capacity then .error s!"capacity {c}, model {s'.core.capacity}" else pure s'
+          if parseNat? c != some s'.g.core.capacity then .error s!"capacity {c}, model {s'.g.core.capacity}" else pure s'
       | .enter1, ["block", "gate"] | .enter2 _, ["block", "gate"] =>
         -- goes to sleep in `g.cond.Wait()`: a step of the refined model
         if gs.asleep l then .error "sleeps again without having been signalled"
@@ -192,7 +213,7 @@ def applyEvent (g : G) (gs : GState) (ev : String) : Except String GState := do
       | .evalStart, ["eval"] => advance t
       | .exit1, ["exit", c] | .exit2, ["exit", c] => do
         let s' ← advance t
-        if parseNat? c != some s'.core.capacity then .error s!"capacity {c}, model {s'.core.capacity}" else pure s'
+        if parseNat? c != some s'.g.core.capacity then .error s!"capacity {c}, model {s'.g.core.capacity}" else pure s'
       | .startDeps (d :: _), ["start", d', sp] =>
         if parseNat? d' != some d then .error s!"starts {d'}, model {d}"
         else if (sp == "spawn") != (s.status d == .idle) then .error "spawn/skip differs"
@@ -206,11 +227,11 @@ def applyEvent (g : G) (gs : GState) (ev : String) : Except String GState := do
         else advance t
       | .walk [], ["walked"] => advance t
       | .waitDeps (d :: _) _, ["block", "wait", d'] =>
-        if parseNat? d' != some d then .error s!"waits for {d'}, model {d}" else blocked t
+        if parseNat? d' != some d then .error s!"waits for {d'}, model {d}" else sleepOn t d
       | .waitDeps (d :: _) _, ["waited", d', e] =>
         if parseNat? d' != some d then .error s!"waited for {d'}, model {d}"
         else if parseErr? e != some (s.err d) then .error s!"handed {e}, model {errName (s.err d)}"
-        else advance t
+        else awake t (advance t)
       | .waitDeps [] _, ["unpub"] | .unpubCyc, ["unpub"] => advance t
       | .evalRest res, ["rest", c, ks] =>
         if (c == "1") != res.isNone then .error "cyclic flag differs"
@@ -226,17 +247,17 @@ def applyEvent (g : G) (gs : GState) (ev : String) : Except String GState := do
   | _ => .error "malformed event"
 
 def runTrace (g : G) (evs : List String) : String := Id.run do
-  let mut s := ginit g.P
+  let mut s := winit g.P
   let mut i := 0
   for ev in evs do
     match applyEvent g s ev with
-    | .ok s' => s := if i % 16 == 15 then gnormalize g.n s' else s'
+    | .ok s' => s := if i % 16 == 15 then wnormalize g.n s' else s'
     | .error why => return s!"fail {i} {ev} {why}"
     i := i + 1
-  if allDone g s.core then
+  if allDone g s.g.core then
     -- the conclusions of the theorems, evaluated on the state the trace ends in
-    return "ok " ++ summary g s.core
-  else return s!"fail {i} end the model has not finished: {gkey g.n s}"
+    return "ok " ++ summary g s.g.core
+  else return s!"fail {i} end the model has not finished: {wkey g.n s}"
 
 /-! ### checking a final state reported by the implementation -/
 
@@ -305,33 +326,33 @@ def checkFinal (g : G) (sum : String) : String :=
 /-! ### exploration of the model -/
 
 structure Node where
-  s : GState
+  s : WState
   path : List Tid     -- reversed
   leaf : Bool := true
 
-instance : Inhabited Node := ⟨{ s := ginit { deps := fun _ => [], known := fun _ => false, bodyOk := fun _ => false, cap := 0, root := 0 }, path := [] }⟩
+instance : Inhabited Node := ⟨{ s := winit { deps := fun _ => [], known := fun _ => false, bodyOk := fun _ => false, cap := 0, root := 0 }, path := [] }⟩
 
 /-- breadth-first exploration; returns (visited count, complete?, nodes in visiting order, stuck non-final states) -/
 def explore (g : G) (maxStates : Nat) : Nat × Bool × Array Node × Nat := Id.run do
-  let s0 := ginit g.P
+  let s0 := winit g.P
   let mut seen : Std.HashSet String := {}
-  seen := seen.insert (gkey g.n s0)
+  seen := seen.insert (wkey g.n s0)
   let mut nodes : Array Node := #[{ s := s0, path := [] }]
   let mut i := 0
   let mut stuck := 0
   let mut complete := true
   while i < nodes.size do
     let nd := nodes[i]!
-    let ts := threads nd.s.core
+    let ts := threads nd.s.g.core
     let mut any := false
     let mut child := false
     for t in ts do
-      match gstep g.P nd.s t with
+      match wstep g.P nd.s t with
       | none => pure ()
       | some s' =>
         any := true
-        let s' := gnormalize g.n s'
-        let k := gkey g.n s'
+        let s' := wnormalize g.n s'
+        let k := wkey g.n s'
         if !seen.contains k then
           if nodes.size < maxStates then
             seen := seen.insert k
@@ -339,13 +360,13 @@ def explore (g : G) (maxStates : Nat) : Nat × Bool × Array Node × Nat := Id.r
             child := true
           else complete := false
     if child then nodes := nodes.set! i { nd with leaf := false }
-    if !any && !allDone g nd.s.core then stuck := stuck + 1
+    if !any && !allDone g nd.s.g.core then stuck := stuck + 1
     i := i + 1
   return (nodes.size, complete, nodes, stuck)
 
 def bfs (g : G) (maxStates : Nat) : String :=
   let (n, complete, nodes, stuck) := explore g maxStates
-  let terms := (nodes.toList.filter fun nd => allDone g nd.s.core).map fun nd => (summary g nd.s.core).replace " " ","
+  let terms := (nodes.toList.filter fun nd => allDone g nd.s.g.core).map fun nd => (summary g nd.s.g.core).replace " " ","
   let terms := terms.eraseDups
   let terms := terms.toArray.qsort (· < ·) |>.toList
   s!"ok states={n} complete={if complete then 1 else 0} stuck={stuck} terminals=" ++ "|".intercalate terms
@@ -381,14 +402,14 @@ def spins (g : G) (s : State) (l : Label) (fuel : Nat) : Bool := Id.run do
 def livelocks (g : G) (maxStates fuel : Nat) : String :=
   let (n, complete, nodes, _) := explore g maxStates
   let cands := nodes.toList.filter fun nd =>
-    let en := genabled g.P nd.s
     let nd : Node := nd
-    !en.isEmpty && en.all (isRead nd.s.core) && en.all fun t => match t with
+    let en := (threads nd.s.g.core).filter fun t => (wstep g.P nd.s t).isSome
+    !en.isEmpty && en.all (isRead nd.s.g.core) && en.all fun t => match t with
       | .tgt l =>
         -- when nobody else moves a terminating walk needs at most (length of its work list) x (a bound on the
         -- expansion below one entry) reads: give it 60 reads per entry on top of the requested fuel
-        let len := match nd.s.core.pc l with | some (.walk t) => t.length | _ => 0
-        spins g nd.s.core l (fuel + 60 * len)
+        let len := match nd.s.g.core.pc l with | some (.walk t) => t.length | _ => 0
+        spins g nd.s.g.core l (fuel + 60 * len)
       | .main => false
   let ex := match cands.head? with
     | some nd => ".".intercalate (nd.path.reverse.map tidName)
